@@ -24,6 +24,8 @@ ASSUMPTIONS = [
     "qfrc_constraint evaluated from the ENGINE's outputs, is below 1e-12 of the cost scale; PGS 'has converged' when efc_force is "
     "stationary (1e-9 relative, whitened) between 1000 and 2000 sweeps. Non-converged runs are counted and skipped; more than 10% "
     "(PGS, documented as first-order: 30%) skipped for a solver makes the run inconclusive",
+    "a primal run whose certificate is larger but whose every (island) solve stopped before its iteration budget (line search found no "
+    "improvement) also counts as converged and is held to |qacc-a*|_M <= 1e-4 sqrt(2 cost scale), objective excess <= 1e-8 cost scale",
     "tolerances follow the documented bounds cost(a)-cost* <= c := 1/2 g'M^-1 g and 1/2|a-a*|^2_M <= cost(a)-cost*: objective excess <= 2c + 1e-9 "
     "of the cost scale (1/2(|x*|+|a_s|_M)^2 + cost at a_s), |qacc-a*|_M <= 2 sqrt(2c) + 1e-7 (|x*|+|a_s|_M); efc_force against the documented force -grad s at the engine's own qacc 4e-9 of the row's operands (|J||a|+|aref|) plus 1e-9 (|x*|+|a_s|_M), in whitened units force*sqrt(R) (the solvers update J a - aref incrementally, so its roundoff is relative to the iterates, not to the final row value); PGS 1e-4 "
     "(doc: first-order convergence)",
@@ -233,22 +235,35 @@ def worker(c):
             return "ok"
         # engine-side convergence evidence
         cert = None
+        mode = "pgs"
         if cfg["solver"] != "pgs":
             g = prob.M @ a - o["qs"] - o["qc"]
             wv = np.linalg.solve(prob.Lc, g)
             cert = 0.5 * float(wv @ wv)
             P.note_max("engine_certificate_rel:" + cfg["solver"], cert / scale_c)
-            if not (cert <= CERT * scale_c):
+            nrec = 1 if not (cfg["island"] and o["nisland"] > 0) else int(o["nisland"])
+            self_term = nrec <= len(o["niter"]) and bool((o["niter"][:nrec] < cfg["iters"]).all())
+            if cert <= CERT * scale_c:
+                mode = "cert"
+            elif self_term:
+                # every (island) solve stopped before its budget: the line search found no further improvement
+                mode = "selfterm"
+                P.count("self_terminated_with_large_certificate:" + cfg["solver"])
+            else:
                 P.count("skipped_not_converged:" + cfg["solver"])
                 return "skip"
         P.count("converged_runs:" + cfg["solver"])
-        if cert is None:
+        if mode == "pgs":
             tolx = TOL_PGS * scale_x
             tolc = TOL_PGS * scale_c
-        else:
+        elif mode == "cert":
             # doc (Warmstart): cost(a) - cost* <= 1/2 g'M^-1 g, and strong convexity gives 1/2|a - a*|^2_M <= cost(a) - cost*
             tolx = 2 * np.sqrt(2 * cert) + TOL_X * scale_x
             tolc = 2 * cert + TOL_COST * scale_c
+        else:
+            tolx = 1e-4 * float(np.sqrt(2 * scale_c))
+            tolc = 1e-8 * scale_c
+        o["tolx"] = tolx
         dx = float(np.linalg.norm(x - r["x"]))
         P.note_max("qacc_err_over_tol:" + cfg["solver"], dx / tolx)
         P.note_max("cost_excess_over_tol:" + cfg["solver"], (ce - ref.cost_ref) / tolc)
@@ -257,6 +272,8 @@ def worker(c):
             bad = "objective-above-reference-optimum"
         elif not (dx <= tolx):
             bad = "qacc-differs-from-reference-optimum"
+        if bad and mode == "selfterm":
+            bad = "solver-stopped-by-itself-away-from-the-optimum"
         # forces
         z = prob.jar(a)
         if cfg["solver"] == "pgs":
@@ -341,7 +358,7 @@ def worker(c):
         dx = float(np.linalg.norm(prob.to_x(oi["a"]) - prob.to_x(om["a"])))
         P.note_max("island_vs_monolithic_qacc_rel", dx / scale_x)
         P.count("island_vs_monolithic_pairs")
-        if not (dx <= 1e-5 * scale_x):
+        if not (dx <= oi["tolx"] + om["tolx"]):
             viol("island-solve-differs-from-monolithic:%s:%s" % (results[True][1]["solver"], cone), cfg=results[True][1], qacc_err_Mnorm=dx,
                  x_scale=scale_x)
     # ---- low iteration budgets: monotonicity from the documented starting point
